@@ -38,6 +38,7 @@ def main():
     need = getattr(mod, "VARIANTS", VARIANTS["default"])[0 if a.tier == "quick" else 1]
     for v in need:
         build_sut.build(v)
+    build_sut.build_ref()
     sweep_stale()
     rc = mod.main(a.tier)
     sys.stdout.flush()
